@@ -96,7 +96,7 @@ func c17HTTPPage(code int, body []byte, idField string) c17Page {
 
 func TestC17(t *testing.T) {
 	c := evid.New("C17")
-	c.Rule = "collections of 0-40 items (ids a random increasing sequence with gaps, some beyond 64 bits) x page size {1,2,3,n-1,n,n+1,100,absent} x order x optional filter (reference / one-key metadata / address), walked through three layers: L1 bunpaginate.UsingColumn / UsingOffset on a harness table, L2 ledgerstore.GetTransactions / GetLogs / GetAccountsWithVolumes, L3 the v2 and v1 HTTP list handlers with ?cursor=. Rows are served by the harness's mini SQL engine. Oracle: following next from the first page yields the filtered collection once, in order, every page but the last full, termination; previous of page i is page i-1 and the first page has none; every statement of the walk carries the filter of the first request (the token stands for the same query). Non-trivial = a walk of >=3 pages, or with a filter, or with a backward step; distinct by (layer, list, sizes, filter, ids)."
+	c.Rule = "collections of 0-40 items (ids a random increasing sequence with gaps, some beyond 64 bits) x page size {1,2,3,n-1,n,n+1,100,absent} x order x optional filter (reference / one-key metadata / $not / $and with a nested $not / $or), walked through three layers: L1 bunpaginate.UsingColumn / UsingOffset on a harness table, L2 ledgerstore.GetTransactions / GetLogs / GetAccountsWithVolumes, L3 the v2 and v1 HTTP list handlers with ?cursor=. Rows are served by the harness's mini SQL engine. Oracle: following next from the first page yields the filtered collection once, in order, every page but the last full, termination; previous of page i is page i-1 and the first page has none; every statement of the walk carries the filter of the first request (the token stands for the same query). Non-trivial = a walk of >=3 pages, or with a filter, or with a backward step; distinct by (layer, list, sizes, filter, ids)."
 	c.Assumptions = []string{"PostgreSQL is replaced by a mini engine that evaluates WHERE conjuncts / ORDER BY / LIMIT / OFFSET of the narrow statement shapes bun emits here; unknown shapes abort the case as a harness error", "static collection (no concurrent inserts)"}
 	runProp(t, c, func(rt *rapid.T) {
 		n := rapid.IntRange(0, 40).Draw(rt, "n")
@@ -123,9 +123,12 @@ func TestC17(t *testing.T) {
 		}
 		filter := ""
 		if !strings.HasPrefix(layer, "L1") && !strings.Contains(layer, "logs") {
-			filter = rapid.SampledFrom([]string{"", "", "reference", "metadata"}).Draw(rt, "filter")
+			filter = rapid.SampledFrom([]string{"", "", "reference", "metadata", "not", "and-not", "or"}).Draw(rt, "filter")
 			if strings.Contains(layer, "accounts") && filter == "reference" {
 				filter = "metadata"
+			}
+			if strings.Contains(layer, "-v1-") && (filter == "not" || filter == "and-not" || filter == "or") {
+				filter = "metadata" // the v1 query parameters cannot express composite filters
 			}
 		}
 		desc := rapid.Bool().Draw(rt, "desc")
@@ -148,8 +151,10 @@ func TestC17(t *testing.T) {
 				md = `{"k":"v"}`
 			}
 			switch filter {
-			case "reference", "metadata":
-				match = tag
+			case "reference", "metadata", "and-not", "or":
+				match = tag // and-not: k=v and not k2=x (no row has k2); or: k=v or k=w (no row has k=w)
+			case "not":
+				match = !tag
 			}
 			items.Rows = append(items.Rows, sqlrec.Row{"id": id.String(), "name": fmt.Sprintf("n%d", i)})
 			var refv driver.Value = ref
@@ -188,6 +193,12 @@ func TestC17(t *testing.T) {
 			qb = query.Match("reference", "r1")
 		case "metadata":
 			qb = query.Match("metadata[k]", "v")
+		case "not":
+			qb = query.Not(query.Match("metadata[k]", "v"))
+		case "and-not":
+			qb = query.And(query.Match("metadata[k]", "v"), query.Not(query.Match("metadata[k2]", "x")))
+		case "or":
+			qb = query.Or(query.Match("metadata[k]", "v"), query.Match("metadata[k]", "w"))
 		}
 		filterBody := ""
 		switch filter {
@@ -195,6 +206,12 @@ func TestC17(t *testing.T) {
 			filterBody = `{"$match":{"reference":"r1"}}`
 		case "metadata":
 			filterBody = `{"$match":{"metadata[k]":"v"}}`
+		case "not":
+			filterBody = `{"$not":{"$match":{"metadata[k]":"v"}}}`
+		case "and-not":
+			filterBody = `{"$and":[{"$match":{"metadata[k]":"v"}},{"$not":{"$match":{"metadata[k2]":"x"}}}]}`
+		case "or":
+			filterBody = `{"$or":[{"$match":{"metadata[k]":"v"}},{"$match":{"metadata[k]":"w"}}]}`
 		}
 		be := httpsim.NewFakeBackend()
 		be.Override = func(name string) backend.Ledger {
